@@ -1,7 +1,7 @@
 #!/bin/sh
 # usage: tools/try_mutant.sh <patch.diff> <Cxx> [Cyy ...]
 # applies the patch to /repo, runs the given checks, always restores /repo.
-patch="$1"; shift
+patch="$(readlink -f "$1")"; shift
 cd /verif || exit 2
 if ! git -C /repo diff --quiet; then echo "/repo has uncommitted changes"; exit 2; fi
 git -C /repo apply "$patch" || { echo "PATCH DOES NOT APPLY"; exit 3; }
